@@ -1,9 +1,160 @@
 import ALV.Common.Json
+import ALV.Model.C06
+import ALV.Spec.C06
+import ALV.Driver.C04
 namespace ALV.Driver.C06
-open ALV ALV.J
+open ALV ALV.J ALV.C04 ALV.C06
+open ALV.Driver.C04 (getMem varJson atomJson gainJson errJson)
 
-/-- stub: the C06 slice is not built yet -/
-def handle (entry : String) (_j : Json) : Except String Json :=
-  throw s!"C06: unknown entry {entry}"
+/-! Driver for C06.  Numbers are exact rationals.
+
+  coefficient : q  |  {"s":[q …]}        (a Stream, by the items it delivers)
+  entry "call":
+    num, den : [[power, coefficient], …]   raw pairs of `ZFilter(num, den)`
+    mem (optional, as in C04), zero : q, xs : [q …]
+    numdiv, dendiv (optional) : a Stream by which the numerator / denominator `Poly` is divided
+  entry "expr":
+    tree : ["z",k] | ["c",q] | ["s",[q…]] | ["neg",t] | ["add"|"sub"|"mul"|"div", l, r]   (+ mem, zero, xs)
+  payload: {"model": {"err":kind}
+                   | {"out":[…], "ir":TIR, "b":[coef…], "a":[coef…], "gainpath":bool,
+                      "num0":[[k,coef]…], "den0":[…]  (the filter object's polynomials),
+                      "bpos":[[k, items consumed from b{k}] …], "apos":[…],
+                      "a0zero": null | index of the first zero of a Stream gain},
+            "spec" : {"err":kind} | {"out":[…]}}
+-/
+
+def getCoef (j : Json) : Except String (Coef Rat) :=
+  match optField j "s" with
+  | some s => do pure (Coef.strm (← getList getRat s))
+  | none => do pure (Coef.const (← getRat j))
+
+def getPair (j : Json) : Except String (Int × Coef Rat) := do
+  match j with
+  | Json.arr [k, v] => pure (← getInt k, ← getCoef v)
+  | _ => throw s!"expected [power, coeff], got {j.compress}"
+
+def coefJson : Coef Rat → Json
+  | .const c => ratToJson c
+  | .strm s => Json.mkObj [("s", rats s)]
+
+def pairsJson (t : Terms (Coef Rat)) : Json :=
+  arr (fun (kv : Int × Coef Rat) => Json.arr [intToJson kv.1, coefJson kv.2]) t
+
+def tatomJson : TAtom Rat → Json
+  | .lti a => atomJson a
+  | .nextB k => Json.arr [Json.str "next", Json.str "b", natToJson k, Json.str "d", natToJson k]
+  | .nextA k => Json.arr [Json.str "negnext", Json.str "a", natToJson k, Json.str "m", natToJson k]
+
+def tirJson : TIR Rat → Json
+  | .constLoop z => Json.mkObj [("kind", Json.str "const"), ("zero", ratToJson z)]
+  | .loop nm nd sum gain shifts bargs aargs => Json.mkObj [
+      ("kind", Json.str "loop"), ("nm", natToJson nm), ("nd", natToJson nd),
+      ("sum", arr tatomJson sum), ("gain", gainJson gain),
+      ("shifts", arr (fun (ts : Var × Var) => Json.arr (varJson ts.1 ++ varJson ts.2)) shifts),
+      ("bargs", nats bargs), ("aargs", nats aargs)]
+
+/-- items consumed from every Stream coefficient: [[delay, count] …] -/
+def posJson (k0 : Nat) (cs : List (Coef Rat)) (its : List (List Rat)) : Json :=
+  let rec go (k : Nat) : List (Coef Rat) → List (List Rat) → List Json
+    | .strm s :: cs, r :: rs => Json.arr [natToJson k, natToJson (s.length - r.length)] :: go (k + 1) cs rs
+    | _ :: cs, _ :: rs => go (k + 1) cs rs
+    | _, _ => []
+  Json.arr (go k0 cs its)
+
+def firstZero (l : List Rat) : Option Nat :=
+  let rec go (i : Nat) : List Rat → Option Nat
+    | [] => none
+    | x :: xs => if x = 0 then some i else go (i + 1) xs
+  go 0 l
+
+/-- the model observation of `filt(xs, memory, zero)` for a filter object with polynomials `n0`, `d0` -/
+def callJson (n0 d0 : Terms (Coef Rat)) (mem : Mem Rat) (zero : Rat) (xs : List Rat) : Json :=
+  match callTV n0 d0 mem zero xs with
+  | .error e => errJson e
+  | .ok (out, its) =>
+    -- the coefficients the loop is generated from (after the variable-gain rewriting)
+    let gp := (coefAt d0 0).isStream
+    let nd : Terms (Coef Rat) × Terms (Coef Rat) :=
+      if gp then
+        match normalise (gainPath n0 d0).1 (gainPath n0 d0).2 with
+        | .ok r => r
+        | .error _ => (n0, d0)
+      else (n0, d0)
+    let a := dense nd.2
+    let b := dense nd.1
+    Json.mkObj [("out", rats out), ("ir", tirJson (compileTV b a zero)),
+                ("b", arr coefJson b), ("a", arr coefJson a), ("gainpath", Json.bool gp),
+                ("num0", pairsJson n0), ("den0", pairsJson d0),
+                ("bpos", posJson 0 b its.b), ("apos", posJson 1 a.tail its.a),
+                ("a0zero", match coefAt d0 0 with
+                           | .strm g => optJson natToJson (firstZero g)
+                           | .const _ => Json.null)]
+
+/-- the specification on the coefficient sequences `num`, `den` (dense lists from delay 0) -/
+def specJson (n0 d0 : Terms (Coef Rat)) (mem : Mem Rat) (zero : Rat) (xs : List Rat) : Json :=
+  match specCallTV n0 d0 mem zero xs with
+  | .error e => errJson e
+  | .ok out => Json.mkObj [("out", rats out)]
+
+partial def getTree (j : Json) : Except String (Tree Rat) := do
+  match j with
+  | Json.arr [Json.str "z", k] => pure (.z (← getNat k))
+  | Json.arr [Json.str "c", v] => pure (.c (← getRat v))
+  | Json.arr [Json.str "s", v] => pure (.s (← getList getRat v))
+  | Json.arr [Json.str "neg", t] => pure (.neg (← getTree t))
+  | Json.arr [Json.str "add", l, r] => pure (.add (← getTree l) (← getTree r))
+  | Json.arr [Json.str "sub", l, r] => pure (.sub (← getTree l) (← getTree r))
+  | Json.arr [Json.str "mul", l, r] => pure (.mul (← getTree l) (← getTree r))
+  | Json.arr [Json.str "div", l, r] => pure (.div (← getTree l) (← getTree r))
+  | _ => throw s!"bad tree {j.compress}"
+
+def handle (entry : String) (j : Json) : Except String Json := do
+  match entry with
+  | "call" =>
+    let num ← getList getPair (← field j "num")
+    let den ← getList getPair (← field j "den")
+    let mem ← getMem j
+    let zero ← getRat (← field j "zero")
+    let xs ← getList getRat (← field j "xs")
+    -- optional: the polynomials are divided by a Stream first (`Poly.__truediv__`: every
+    -- coefficient divided by its own tee copy of the Stream)
+    let numdiv ← match optField j "numdiv" with
+      | some c => do pure (some (← getCoef c))
+      | none => pure none
+    let dendiv ← match optField j "dendiv" with
+      | some c => do pure (some (← getCoef c))
+      | none => pure none
+    let divM (p : Terms (Coef Rat)) (c : Option (Coef Rat)) : Terms (Coef Rat) :=
+      match c with
+      | none => p
+      | some c => match ALV.C07.divScalar p c with
+        | .ok q => q
+        | .error _ => p
+    let divS (p : List (Int × Coef Rat)) (c : Option (Coef Rat)) : List (Int × Coef Rat) :=
+      match c with
+      | none => p
+      | some c => p.map (fun kv => if kv.2 = 0 then kv else (kv.1, kv.2 / c))   -- a zero stays absent
+    let model : Json :=
+      match normalise (divM (mkPoly num) numdiv) (divM (mkPoly den) dendiv) with
+      | .error e => errJson e
+      | .ok (n0, d0) => callJson n0 d0 mem zero xs
+    let spec : Json :=
+      match specCallTV (divS num numdiv) (divS den dendiv) mem zero xs with
+      | .error e => errJson e
+      | .ok out => Json.mkObj [("out", rats out)]
+    pure <| Json.mkObj [("model", model), ("spec", spec)]
+  | "expr" =>
+    -- the filter is built by ZFilter / Poly arithmetic (C07 model at Stream coefficients); the
+    -- specification is the time-varying difference equation on the resulting coefficient sequences
+    let tree ← getTree (← field j "tree")
+    let mem ← getMem j
+    let zero ← getRat (← field j "zero")
+    let xs ← getList getRat (← field j "xs")
+    match evalTree tree with
+    | .error e => pure <| Json.mkObj [("model", errJson e), ("spec", errJson e), ("stage", Json.str "init")]
+    | .ok (.num _) => throw "expr: the tree evaluates to a number, not to a filter"
+    | .ok (.filt f) =>
+      pure <| Json.mkObj [("model", callJson f.num f.den mem zero xs), ("spec", specJson f.num f.den mem zero xs)]
+  | _ => throw s!"C06: unknown entry {entry}"
 
 end ALV.Driver.C06
